@@ -257,3 +257,145 @@ pub fn cmd_hll_env(t: &mut Toks) -> String {
     }
     format!("hll_env est={}", estimate(&h))
 }
+
+// ---------------- constructors into caller buffers (C19) ----------------
+const GUARD: usize = 64;
+
+fn guarded(outlen: usize, fill: u8) -> Vec<u8> {
+    let mut v = vec![0xC3u8; GUARD + outlen + GUARD];
+    for b in &mut v[GUARD..GUARD + outlen] {
+        *b = fill;
+    }
+    v
+}
+fn guards_ok(v: &[u8], outlen: usize) -> bool {
+    v[..GUARD].iter().all(|b| *b == 0xC3) && v[GUARD + outlen..].iter().all(|b| *b == 0xC3)
+}
+
+fn ev_accessors(e: &Event) -> String {
+    let tags = match e.tags() {
+        Ok(t) => s_tags(&tags_to_parts(t)),
+        Err(_) => "tags-err".to_string(),
+    };
+    format!(
+        "{} {} {} n:{} n:{} {} {}",
+        s_bytes(e.id().as_slice()),
+        s_bytes(e.pubkey().as_slice()),
+        s_bytes(e.sig().as_slice()),
+        e.kind().as_u16(),
+        e.created_at().as_u64(),
+        tags,
+        s_bytes(e.content())
+    )
+}
+fn fl_accessors(f: &Filter) -> String {
+    let tags = match f.tags() {
+        Ok(t) => s_tags(&tags_to_parts(t)),
+        Err(_) => "tags-err".to_string(),
+    };
+    let ids: Vec<Vec<u8>> = f.ids().map(|i| i.as_slice().to_vec()).collect();
+    let aus: Vec<Vec<u8>> = f.authors().map(|i| i.as_slice().to_vec()).collect();
+    let ks: Vec<u16> = f.kinds().map(|k| k.as_u16()).collect();
+    format!(
+        "{} {} {} {} n:{} n:{} n:{}",
+        s_list(&ids, &|b| s_bytes(b)),
+        s_list(&aus, &|b| s_bytes(b)),
+        s_list(&ks, &|k| format!("n:{k}")),
+        tags,
+        f.since().as_u64(),
+        f.until().as_u64(),
+        f.limit()
+    )
+}
+
+pub fn cmd_ctor_tags(t: &mut Toks) -> String {
+    let parts = t.tags();
+    let outlen = t.n() as usize;
+    let fill = t.n() as u8;
+    let ss = match tag_strings(&parts) {
+        Some(s) => s,
+        None => return "ctor_tags r=nonutf8".to_string(),
+    };
+    let mut buf = guarded(outlen, fill);
+    let r = match Tags::from_parts(&ss, &mut buf[GUARD..GUARD + outlen]) {
+        Ok(tags) => format!("ok acc={} getstr={}", s_tags(&tags_to_parts(tags)), {
+            // get_string over every (tag, string) incl. one past the end
+            let mut okk = true;
+            for (i, tg) in parts.iter().enumerate() {
+                for (j, s) in tg.iter().enumerate() {
+                    okk &= tags.get_string(i, j) == Some(s.as_slice());
+                }
+                okk &= tags.get_string(i, tg.len()).is_none();
+            }
+            okk &= tags.get_string(parts.len(), 0).is_none();
+            okk
+        }),
+        Err(e) => format!("err:{}", crate::err_class(&e)),
+    };
+    let owned = match OwnedTags::new(&ss) {
+        Ok(o) => format!("ok {}", hex(o.as_bytes())),
+        Err(e) => format!("err:{}", crate::err_class(&e)),
+    };
+    format!("ctor_tags r={} buf={} guard={} owned={}", r, hex(&buf[GUARD..GUARD + outlen]), guards_ok(&buf, outlen), owned)
+}
+
+pub fn cmd_ctor_event(t: &mut Toks) -> String {
+    let p = p_event(t);
+    let outlen = t.n() as usize;
+    let fill = t.n() as u8;
+    let tags = match build_tags(&p.tags) {
+        Ok(x) => x,
+        Err(s) => return format!("ctor_event r=tags-{s}"),
+    };
+    let mut buf = guarded(outlen, fill);
+    let r = match Event::from_parts(
+        Id::from_bytes(arr32(&p.id)),
+        Kind::from_u16(p.kind as u16),
+        Pubkey::from_bytes(arr32(&p.pk)),
+        Sig::from_bytes(arr64(&p.sig)),
+        &tags,
+        Time::from_u64(p.created as u64),
+        &p.content,
+        &mut buf[GUARD..GUARD + outlen],
+    ) {
+        Ok(e) => format!("ok acc={}", ev_accessors(e)),
+        Err(e) => format!("err:{}", crate::err_class(&e)),
+    };
+    let owned = match build_event(&p) {
+        Ok(o) => format!("ok {}", hex(o.as_bytes())),
+        Err(s) => s,
+    };
+    format!("ctor_event r={} buf={} guard={} owned={}", r, hex(&buf[GUARD..GUARD + outlen]), guards_ok(&buf, outlen), owned)
+}
+
+pub fn cmd_ctor_filter(t: &mut Toks) -> String {
+    let p = p_filter(t);
+    let outlen = t.n() as usize;
+    let fill = t.n() as u8;
+    let tags = match build_tags(&p.tags) {
+        Ok(x) => x,
+        Err(s) => return format!("ctor_filter r=tags-{s}"),
+    };
+    let ids: Vec<Id> = p.ids.iter().map(|b| Id::from_bytes(arr32(b))).collect();
+    let authors: Vec<Pubkey> = p.authors.iter().map(|b| Pubkey::from_bytes(arr32(b))).collect();
+    let kinds: Vec<Kind> = p.kinds.iter().map(|k| Kind::from_u16(*k as u16)).collect();
+    let mut buf = guarded(outlen, fill);
+    let r = match Filter::from_parts(
+        &ids,
+        &authors,
+        &kinds,
+        &tags,
+        p.since.map(|s| Time::from_u64(s as u64)),
+        p.until.map(|s| Time::from_u64(s as u64)),
+        p.limit.map(|s| s as u32),
+        &mut buf[GUARD..GUARD + outlen],
+    ) {
+        Ok(f) => format!("ok acc={}", fl_accessors(f)),
+        Err(e) => format!("err:{}", crate::err_class(&e)),
+    };
+    let owned = match build_filter(&p) {
+        Ok(o) => format!("ok {}", hex(o.as_bytes())),
+        Err(s) => s,
+    };
+    format!("ctor_filter r={} buf={} guard={} owned={}", r, hex(&buf[GUARD..GUARD + outlen]), guards_ok(&buf, outlen), owned)
+}
